@@ -566,14 +566,30 @@ func (fc *FuncCtx) appendOp(fr *Frame, st *State, call *ssa.CallCommon, pos toke
 	s := fc.value(fr, call.Args[0]).T
 	sl := call.Args[0].Type().Underlying().(*types.Slice)
 	elS := sortOf(sl.Elem())
-	if elS == nil {
-		unsupp("append on []%s", sl.Elem())
-	}
-	h := fc.p.elemHeap(sl.Elem())
-	M := st.H(fc.p, h)
-	rowS := ArraySort(SInt, elS)
 	// second argument: slice or string
 	tv := fc.value(fr, call.Args[1])
+	newRef := fc.newRef(st)
+	newCap := Fresh("append.cap", SInt)
+	if elS == nil {
+		// slice of flat structs: the same copy in every per-field element heap
+		flds := flatStructFields(sl.Elem())
+		if flds == nil {
+			unsupp("append on []%s", sl.Elem())
+		}
+		var res Val
+		for _, f := range flds {
+			res = fc.appendHeap(st, fc.p.elemFieldHeap(sl.Elem(), f), sortOf(f.Type()), s, tv, newRef, newCap)
+		}
+		return res
+	}
+	return fc.appendHeap(st, fc.p.elemHeap(sl.Elem()), elS, s, tv, newRef, newCap)
+}
+
+// appendHeap: the effect of append(s, tv...) on one element heap; newRef/newCap are the array and the
+// capacity chosen when the result does not fit (shared by the per-field heaps of a slice of structs)
+func (fc *FuncCtx) appendHeap(st *State, h string, elS *Sort, s *Term, tv Val, newRef, newCap *Term) Val {
+	M := st.H(fc.p, h)
+	rowS := ArraySort(SInt, elS)
 	var n *Term
 	var elemAt func(k *Term) *Term
 	if tv.T.Sort == SStr {
@@ -588,7 +604,6 @@ func (fc *FuncCtx) appendOp(fr *Frame, st *State, call *ssa.CallCommon, pos toke
 	newLen := Add(ln, n)
 	fits := Le(newLen, SCap(s))
 	srow := Select(M, SBase(s))
-	newRef := fc.newRef(st)
 	one, isOne := n.isInt()
 	var inPlaceRow, freshRow *Term
 	if isOne && one == 1 {
@@ -614,7 +629,6 @@ func (fc *FuncCtx) appendOp(fr *Frame, st *State, call *ssa.CallCommon, pos toke
 			Ite(Lt(k2, ln), At(srow, SOff(s), k2), elemAt(Sub(k2, ln)))))))
 		freshRow = fr0
 	}
-	newCap := Fresh("append.cap", SInt)
 	st.assume(Le(newLen, newCap))
 	// n == 0 and nil s: Go returns s itself when nothing is appended... (append(nil) stays nil; with n==0 result is s)
 	res := Ite(fits, SliceMk(SBase(s), SOff(s), newLen, SCap(s)), SliceMk(newRef, IntLit(0), newLen, newCap))
